@@ -20,7 +20,14 @@
 //       libcellml::areEquivalentVariables (utilities) and AnalyserModel::areEquivalentVariables on an
 //       AnalyserModel obtained AFTER the last edit (it is documented as a snapshot), and compute the
 //       driver's own BFS verdict over equivalentVariable(i) lists at that moment.
-//       output: "<t d u c B>,... adj=<final lists> cc=<final labels> am=<number of AnalyserModels taken>"
+//       further events: "a=b" 4-argument addEquivalence(va, vb, mappingId, connectionId); "ma:b" / "ca:b"
+//       Variable::setEquivalenceMappingId / setEquivalenceConnectionId(va, vb, id); "Ma:b" / "Ca:b"
+//       removeEquivalenceMappingId / removeEquivalenceConnectionId; "P" print the model with Printer, parse the
+//       text with Parser and go on with the objects of the parsed model; "A" take a new AnalyserModel now;
+//       "!k:a:b" ask the k-th AnalyserModel taken so far (an OLD snapshot; only in keep mode).
+//       optional 5th field "keep": ONE Analyser lives through the whole history and analyseModel is called
+//       again on it after edits (otherwise a fresh Analyser is made each time and the old one released).
+//       output: "<t d u c B>,... adj=<final lists> cc=<final labels> am=<number of AnalyserModels taken> old=<answers of the ! questions>"
 //   K <hex a> <hex b>
 //       the cache key computed by the library for the two addresses (guarded hook, no dereference).
 //       output: "<hex first> <hex second>"
@@ -362,14 +369,59 @@ static std::string historyCase(const std::vector<std::string> &f)
     if (!makeWorld(w, f[1], f[2])) {
         return "BADCASE";
     }
+    const bool keep = f.size() > 4 && f[4] == "keep";
     libcellml::AnalyserPtr analyser;
     libcellml::AnalyserModelPtr am;
+    std::vector<libcellml::AnalyserModelPtr> ams; // keep mode only: every AnalyserModel taken, in order
     bool dirty = true;
     size_t taken = 0;
     std::ostringstream o;
+    std::string old;
     bool first = true;
+    size_t evIndex = 0;
+    auto takeAnalyserModel = [&]() -> bool {
+        rebuildMath(w);
+        if (!keep || analyser == nullptr) {
+            analyser = libcellml::Analyser::create();
+        }
+        if (w.layout != 'I') {
+            analyser->analyseModel(w.model); // keep mode: the SAME Analyser analyses the SAME Model object again
+        }
+        am = analyser->model();
+        if (am == nullptr) {
+            return false;
+        }
+        if (keep) {
+            ams.push_back(am);
+        }
+        dirty = false;
+        ++taken;
+        return true;
+    };
     if (f[3] != "-") {
         for (const auto &ev : splitws(f[3], ',')) {
+            ++evIndex;
+            if (ev[0] == '!') {
+                auto kab = splitws(ev.substr(1), ':');
+                size_t k = std::stoul(kab[0]);
+                const auto &va = w.vars[std::stoul(kab[1])];
+                const auto &vb = w.vars[std::stoul(kab[2])];
+                if (k >= ams.size() || va == nullptr || vb == nullptr) {
+                    return "BADCASE(old AnalyserModel question)";
+                }
+                old += ams[k]->areEquivalentVariables(va, vb) ? '1' : '0';
+                continue;
+            }
+            if (ev[0] == 'A') {
+                if (!keep) {
+                    am.reset();
+                    analyser.reset();
+                }
+                if (!takeAnalyserModel()) {
+                    return "NOANALYSERMODEL";
+                }
+                continue;
+            }
             if (ev[0] == '?') {
                 auto ab = splitws(ev.substr(1), ':');
                 const auto &va = w.vars[std::stoul(ab[0])];
@@ -377,18 +429,8 @@ static std::string historyCase(const std::vector<std::string> &f)
                 if (va == nullptr || vb == nullptr) {
                     return "BADCASE(query on a destroyed variable)";
                 }
-                if (dirty) {
-                    rebuildMath(w);
-                    analyser = libcellml::Analyser::create();
-                    if (w.layout != 'I') {
-                        analyser->analyseModel(w.model);
-                    }
-                    am = analyser->model();
-                    if (am == nullptr) {
-                        return "NOANALYSERMODEL";
-                    }
-                    dirty = false;
-                    ++taken;
+                if (dirty && !takeAnalyserModel()) {
+                    return "NOANALYSERMODEL";
                 }
                 if (!first) {
                     o << ',';
@@ -403,9 +445,52 @@ static std::string historyCase(const std::vector<std::string> &f)
             }
             dirty = true;
             // the previous Analyser (its issues, its AnalyserModel) may hold shared_ptrs to variables: let go of it
-            am.reset();
-            analyser.reset();
-            if (ev[0] == 'x') {
+            if (!keep) {
+                am.reset();
+                analyser.reset();
+            }
+            const std::string idText = "id" + std::to_string(evIndex);
+            if (ev[0] == 'P') {
+                auto text = libcellml::Printer::create()->printModel(w.model);
+                auto parser = libcellml::Parser::create();
+                auto parsed = parser->parseModel(text);
+                if (parsed == nullptr || parser->errorCount() > 0) {
+                    return "REPARSE_FAILED(" + std::to_string(parser->errorCount()) + " errors)";
+                }
+                for (size_t c = 0; c < w.comps.size(); ++c) {
+                    w.comps[c] = parsed->component("c" + std::to_string(c));
+                    if (w.comps[c] == nullptr) {
+                        return "REPARSE_FAILED(component lost)";
+                    }
+                }
+                for (size_t k = 0; k < w.n; ++k) {
+                    if (w.vars[k] != nullptr) {
+                        w.vars[k] = w.comps[w.compOf[k]]->variable("v" + std::to_string(k));
+                        if (w.vars[k] == nullptr) {
+                            return "REPARSE_FAILED(variable lost)";
+                        }
+                    }
+                }
+                w.model = parsed;
+            } else if (ev[0] == 'm' || ev[0] == 'c' || ev[0] == 'M' || ev[0] == 'C') {
+                auto ab = splitws(ev.substr(1), ':');
+                const auto &va = w.vars[std::stoul(ab[0])];
+                const auto &vb = w.vars[std::stoul(ab[1])];
+                switch (ev[0]) {
+                case 'm': libcellml::Variable::setEquivalenceMappingId(va, vb, idText); break;
+                case 'c': libcellml::Variable::setEquivalenceConnectionId(va, vb, idText); break;
+                case 'M': libcellml::Variable::removeEquivalenceMappingId(va, vb); break;
+                default: libcellml::Variable::removeEquivalenceConnectionId(va, vb); break;
+                }
+            } else if (ev.find('=') != std::string::npos) {
+                auto ab = splitws(ev, '=');
+                const auto &va = w.vars[std::stoul(ab[0])];
+                const auto &vb = w.vars[std::stoul(ab[1])];
+                if (va == nullptr || vb == nullptr) {
+                    return "BADCASE(4-argument addEquivalence on a destroyed variable)";
+                }
+                libcellml::Variable::addEquivalence(va, vb, "map_" + idText, "con_" + idText);
+            } else if (ev[0] == 'x') {
                 size_t k = std::stoul(ev.substr(1));
                 if (w.vars[k] != nullptr) {
                     std::weak_ptr<libcellml::Variable> wk = w.vars[k];
@@ -434,7 +519,7 @@ static std::string historyCase(const std::vector<std::string> &f)
     if (!err.empty()) {
         return err;
     }
-    o << dump << " am=" << taken;
+    o << dump << " am=" << taken << " old=" << old;
     return o.str();
 }
 
